@@ -287,7 +287,7 @@ pub fn examples(th: bool) -> Vec<Example> {
         let info: Vec<(usize, u64, Vec<Vec<(usize, usize)>>, usize)> = scopes.iter().map(|(n, a)| { let inner = n - 2; (*n, *a, dags(inner), inner * 2 + inner * (inner - 1)) }).collect();
         let sizes: Vec<u64> = info.iter().map(|(_, a, d, e)| d.len() as u64 * a.pow(*e as u32)).collect();
         let count = sizes.iter().sum();
-        let d12 = Case { text: "NAME: d12.sop\nTYPE: SOP\nCOMMENT: 7 nodes, found by an independent random search (seeded/C16b/notes.md)\nDIMENSION: 7\nEDGE_WEIGHT_TYPE: EXPLICIT\nEDGE_WEIGHT_FORMAT: FULL_MATRIX\nEDGE_WEIGHT_SECTION\n7\n0 15 19 14 1 16 1000000\n-1 0 1 3 -1 9 0\n-1 1 0 8 4 13 9\n-1 17 3 0 8 -1 16\n-1 10 8 15 0 9 7\n-1 3 5 13 1 0 13\n-1 -1 -1 -1 -1 -1 0\nEOF\n".to_string(),
+        let d12 = Case { text: "NAME: d12.sop\nTYPE: SOP\nCOMMENT: 7 nodes, found by an independent random search (seeded/C16b/notes.md), D12 repaired\nDIMENSION: 7\nEDGE_WEIGHT_TYPE: EXPLICIT\nEDGE_WEIGHT_FORMAT: FULL_MATRIX\nEDGE_WEIGHT_SECTION\n7\n0 15 19 14 1 16 1000000\n-1 0 1 3 -1 9 0\n-1 1 0 8 4 13 9\n-1 17 3 0 8 -1 16\n-1 10 8 15 0 9 7\n-1 3 5 13 1 0 13\n-1 -1 -1 -1 -1 -1 0\nEOF\n".to_string(),
             expect: Expect::Value(27.0), descr: "D12 instance: 7 nodes, precedences 4 < 1 and 5 < 3, optimum 27 = 0 4 5 3 2 1 6".to_string() };
         ex.push(Example { name: "sop", scope: format!("(nodes, distance alphabet 1..a) in {:?}: all relevant distance assignments x all precedence DAGs on the inner nodes", scopes), count, file_flag: None, tsptw_output: false, extra: vec![d12],
             arg_sets: argsets(&w4, tt, "-w", "-t"),
